@@ -190,7 +190,7 @@ func runC07(c *Ctx) {
 	}
 	nHist, nGen := 60, 500
 	if c.Thorough() {
-		nHist, nGen = 1500, 6000
+		nHist, nGen = 8000, 8000
 	}
 	// the pool
 	var pool, failing, allocating []*histRun
@@ -198,7 +198,7 @@ func runC07(c *Ctx) {
 		cs := specCase(s)
 		r.Count("c07:build:"+cs.B.Stage, 1)
 		if cs.B.Program == nil || cs.B.Panicked {
-			if s.EnvSeed >= 1000 {
+			if where != &pool { // the crafted sources must build
 				r.Mismatch("generator", s.String(), "crafted source does not build", fmt.Sprint(cs.B.Err))
 			}
 			return
